@@ -504,3 +504,68 @@ func listingRule(p *Prog, r *Report, rule string, m mgrSpec) {
 		r.Check(rule, base, ok, p.Pos(an.Pos()), "listing predicate: "+detail)
 	}
 }
+
+// scanContentRule: the scan that decides an insertion into a registry compares
+// the components of the existing entries with the very objects the new entry is
+// built from (not with request data that merely names them).
+//   - subscriptions: the pair (server feature, client feature) of the new entry;
+//   - bindings: the server feature of the new entry.
+func scanContentRule(p *Prog, r *Report, rule string, m mgrSpec, components []string) {
+	iface := p.LookupIface("api", m.Type+"Interface")
+	if iface == nil {
+		r.Undecided(rule, "anchor:api."+m.Type+"Interface", "", "interface not found")
+		return
+	}
+	for _, fn := range p.ImplsOf(iface, m.Add) {
+		base := FnName(fn)
+		// the new entry's components
+		stored := map[string]ssa.Value{}
+		for _, b := range fn.Blocks {
+			for _, ins := range b.Instrs {
+				st, ok := ins.(*ssa.Store)
+				if !ok {
+					continue
+				}
+				fa, ok := st.Addr.(*ssa.FieldAddr)
+				if !ok || fieldOfAddr(fa) == nil || !isNamed(derefType(fa.X.Type()), "api", m.Entry) {
+					continue
+				}
+				stored[fieldOfAddr(fa).Name()] = st.Val
+			}
+		}
+		field := FN(m.Type + "." + m.Field)
+		found := map[string]bool{}
+		forEachCall(fn, func(site ssa.CallInstruction) {
+			c, ok := site.(*ssa.Call)
+			if !ok {
+				return
+			}
+			callee := c.Call.StaticCallee()
+			if callee == nil || fnPkgPath(callee) != "reflect" || callee.Name() != "DeepEqual" {
+				return
+			}
+			a0, a1 := Path(c.Call.Args[0]), Path(c.Call.Args[1])
+			for _, comp := range components {
+				for _, pair := range [][2]string{{a0, a1}, {a1, a0}} {
+					el, other := pair[0], pair[1]
+					i := strings.Index(el, "."+field+"[]."+comp)
+					if i < 0 {
+						continue
+					}
+					suffix := el[i+len("."+field+"[]."+comp):]
+					want := ""
+					if sv, ok := stored[comp]; ok {
+						want = Path(sv) + suffix
+					}
+					found[comp] = true
+					r.Check(rule, fmt.Sprintf("%s|scan:%s", base, comp), want != "" && other == want, p.InstrPos(c), fmt.Sprintf("existing entries' %s%s is compared with %s; the new entry's %s is %s", comp, suffix, other, comp, want))
+				}
+			}
+		})
+		for _, comp := range components {
+			if !found[comp] {
+				r.Fail(rule, fmt.Sprintf("%s|scan:%s", base, comp), p.Pos(fn.Pos()), "the scan deciding the insertion does not compare the existing entries' "+comp)
+			}
+		}
+	}
+}
